@@ -151,16 +151,20 @@ def judge(sc, always_connect, outcome, out):
         return [('C11/sched-stuck', f'{what}: {out}')]
     v = []
     # cause classifier: a CONNECT taken up while engine.io was already
-    # closing the transport (disconnect handlers still running)
-    cause = '/connect-while-transport-closing' \
-        if out['connect_while_closing'] else ''
+    # closing the transport (disconnect handlers still running).  The key
+    # names the cause, not the table the ghost shows up in (a refactoring
+    # may mirror or rename tables)
+    if out['connect_while_closing'] and (out['diff'] or out['namespaces']):
+        v.append(('C11/sched-not-fresh/connect-while-transport-closing',
+                  f'{what}: the only client is gone but '
+                  f'{dict(sorted(out["diff"].items()))!r}; get_namespaces() '
+                  f'= {out["namespaces"]!r}'))
+        return v
     for k, val in sorted(out['diff'].items()):
-        field = k.split('.')[1]
-        v.append(('C11/sched-not-fresh/' + field +
-                  (cause if field == 'rooms' else ''),
+        v.append(('C11/sched-not-fresh/' + k.split('.')[1],
                   f'{what}: the only client is gone but {k} = {val!r}'))
     if out['namespaces']:
-        v.append(('C11/sched-not-fresh/namespaces' + cause, f'{what}: '
+        v.append(('C11/sched-not-fresh/namespaces', f'{what}: '
                   f'get_namespaces() = {out["namespaces"]!r}'))
     return v
 
